@@ -1,3 +1,4 @@
+(* C05 - preservation of Inv2: stability of the queue-entry predicate QP *)
 From Coq Require Import List Arith Bool Lia.
 Import ListNotations.
 Require Import MayV.Sync.MutexModel MayV.Sync.MutexInv MayV.Sync.MutexLiveInv.
